@@ -16,6 +16,7 @@ META = {
     "assumptions": ["threshold: 10^-((P-1)/10) relative to |W(0)|^2, main-lobe half-width sqrt(1+alpha^2) bins with alpha=kaiser_alpha(P)"],
 }
 POLY = {}
+_SHARED = {}
 
 
 def encoded_functions():
@@ -42,8 +43,18 @@ def captured_windows(L, P):
                 over[K.fname(b, fam, m)] = None
     N = L + 8
     x = rnp.zeros(N) + 1.0
+    cur = {"tag": None}
+
+    def router(*args):
+        return mk(cur["tag"])(*args)
+    # ONE copy of the analysis module serves every (L, P) of this run, as in a real process: whatever an analysis leaves behind
+    # at module level (caches) is seen by the next one
+    if "G" not in _SHARED:
+        _SHARED["G"] = clone_module(A, {k: (lambda *a: _SHARED["router"](*a)) for k in over})
+    _SHARED["router"] = router
+    G = _SHARED["G"]
     for tag in ("compute", "single"):
-        G = clone_module(A, {k: mk(tag) for k in over})
+        cur["tag"] = tag
         if tag == "compute":
             sched = lambda **kw: {"f": rnp.array([0.1]), "r": rnp.array([1.0 / L]), "b": rnp.array([0.1 * L]), "L": rnp.array([L]), "K": rnp.array([1]), "navg": rnp.array([1]),
                                   "D": [rnp.array([0])], "O": rnp.array([0.0]), "nf": 1}
